@@ -86,7 +86,58 @@ func StreamingOutputs() {
 	checkOutputs(offs, err, data, outs, body)
 }
 
+// ByronRanges: a Byron-shaped block [header, [tx_payload, ssc, dlg, upd], extra] with n
+// transaction pairs [body, witnesses]; the block array, the body array, the payload array and
+// the pair arrays each use the given head form. The reported body and witness ranges are the
+// bytes of the pair's two items.
+func ByronRanges() {
+	fb, fbody, fpay, fpair, n := sym.Param("block_form"), sym.Param("body_form"), sym.Param("payload_form"), sym.Param("pair_form"), sym.Param("txs")
+	data := sym.Bytes("blk", 9+1+9+9+n*(9+2+1)+1+3+1+1+1)
+	off := ghost.PutHead(data, 0, 4, fb, 3)
+	off += ghost.Fixed(data, off, "hdr", 0)
+	bodyStart := off
+	off += ghost.PutHead(data, off, 4, fbody, 4)
+	payStart := off
+	off += ghost.PutHead(data, off, 4, fpay, n)
+	type pr struct{ body, wit ghost.Range }
+	pairs := make([]pr, n)
+	for i := 0; i < n; i++ {
+		r, items := ghost.PutLeafArray(data, off, fpair, 2, "pair"+string(rune('0'+i))+"_", 0)
+		pairs[i] = pr{items[0], items[1]}
+		off += r.Len
+	}
+	if fpay == ghost.FormIndef {
+		sym.Assume(data[off] == 0xff)
+		off++
+	}
+	ghost.Tie(data, payStart, off-payStart)
+	for _, nm := range []string{"ssc", "dlg", "upd"} {
+		off += ghost.Fixed(data, off, nm, 0)
+	}
+	if fbody == ghost.FormIndef {
+		sym.Assume(data[off] == 0xff)
+		off++
+	}
+	ghost.Tie(data, bodyStart, off-bodyStart)
+	off += ghost.Fixed(data, off, "extra", 0)
+	if fb == ghost.FormIndef {
+		sym.Assume(data[off] == 0xff)
+		off++
+	}
+	ghost.Tie(data, 0, off)
+	blk := data[:off]
+	offs, err := common.ExtractTransactionOffsets(blk)
+	sym.Reach("decided")
+	sym.Assert(err == nil && offs != nil && len(offs.Transactions) == n, "offset extraction succeeds on a well-formed Byron block")
+	for i := range pairs {
+		loc := offs.Transactions[i]
+		sym.Assert(int(loc.Body.Offset) == pairs[i].body.Off && int(loc.Body.Length) == pairs[i].body.Len, "Byron body range is the transaction body's bytes")
+		sym.Assert(int(loc.Witness.Offset) == pairs[i].wit.Off && int(loc.Witness.Length) == pairs[i].wit.Len, "Byron witness range is the witnesses' bytes")
+	}
+}
+
 var Registry = map[string]func(){
+	"ByronRanges":      ByronRanges,
 	"Outputs":          Outputs,
 	"StreamingOutputs": StreamingOutputs,
 	"BlockLevel":       BlockLevel,
